@@ -46,12 +46,16 @@ def cleanup_model(ip_, args, kwargs, node):
     t = a.t if isinstance(a, SV) else None
     if t is not None and _z3.is_app(t) and t.decl().name() == 'G_cleanup':
         return a
-    ip_.ctx.assumed.append('abstraction:cleanup_desc is a deterministic idempotent function of the text')
-    return g_str('G_cleanup', a)
+    ip_.ctx.assumed.append('abstraction:cleanup_desc is a deterministic idempotent function of the text, never longer than it '
+                           '(length fact: proved for every text by C01/cleanup_desc[any text: ...] with a loop invariant)')
+    r = g_str('G_cleanup', a)
+    if t is not None:
+        ip_.ctx.assume(_z3.Length(r.t) <= _z3.Length(t))
+    return r
 
 
 def install(ip, twprge_matches=None, sec_matches=None, finder_flags=((), ()), pp_identity=True, keep_gen_flags=False,
-            layout_oracle=None):
+            layout_oracle=None, pp_len_min=None):
     """register the abstraction contracts on this path.
     twprge_matches / sec_matches: lists of match tuples returned by the finders for *any* text they are asked about
     (single-chunk descriptions), or callables text -> list."""
@@ -73,6 +77,10 @@ def install(ip, twprge_matches=None, sec_matches=None, finder_flags=((), ()), pp
     def plss_pp(ip_, args, kwargs, node):
         ip_.ctx.assumed.append('abstraction:PLSSPreprocessor (text is a function of its arguments)')
         text = args[0] if pp_identity else g_str('G_plss_pp', *args)
+        if not pp_identity and pp_len_min is not None:
+            # the ghost match spans lie inside the preprocessed text (part of the abstract match view)
+            ip_.ctx.assume(z3.Length(text.t) >= pp_len_min)
+        ip_.hooks.setdefault(('pp_text',), []).append(text)
         return Obj(PLSSPreprocessor, {'text': text, 'fixed_twprges': [], 'orig_text': args[0]})
     models.register_model(PLSSPreprocessor, plss_pp)
 
